@@ -179,6 +179,12 @@ func computeYear(lunar *Lunar) {
 			gExact++
 			zExact++
 		}
+	} else {
+		//正月初一早于阳历元旦(如公元18年12月27日)，此时仍在阳历年的立春之后
+		g--
+		z--
+		gExact--
+		zExact--
 	}
 
 	if g < 0 {
